@@ -5,6 +5,7 @@ import CookModel.Lemmas.CollectorAgree
 import CookModel.Lemmas.MetaFront
 import CookModel.Lemmas.MetaDiagsParser
 import CookModel.Lemmas.MetaDiagsFront
+import CookModel.Lemmas.MetaFrontDiags
 /-
   C14  Metadata-only parsing agrees with full parsing.
 
@@ -31,7 +32,16 @@ import CookModel.Lemmas.MetaDiagsFront
   * diagnostics: without front matter the analysis diagnostics about metadata (five kinds) are the
     same in both reports (`C14_metadata_diagnostics_agree_partial`); for every input the three
     kinds about `>>` values are (`C14_std_metadata_diagnostics_agree`); with front matter the
-    `config-*` kinds differ by design (the metadata-only parser stops after the front matter).
+    `config-*` kinds differ by design (the metadata-only parser stops after the front matter);
+  * PARSE-stage diagnostics about metadata lines (`metadata-invalid`, `empty-metadata-key`,
+    `empty-metadata-value`): without front matter they are the same in both event streams and in
+    both reports, interleaved the same way with the `Metadata` events, with NO hypothesis that the
+    analyses have output (`C14_metadata_trace_agree`, `C14_parse_stage_metadata_diagnostics_agree`);
+    only `metadata_entry` pushes them, the collector adds and drops no parse-stage diagnostic;
+  * with front matter (`C14_front_matter_diagnostics`): the metadata-only report is empty, the
+    metadata diagnostics of the full report are `config-*` ones only and none without MODES; the
+    full parser still warns about `>>` lines of the body (`metadata-invalid`, …) although they are
+    steps there — the reports differ exactly by what the full analysis says about the body.
 -/
 namespace Cook
 variable {α : Type} [Arith α]
@@ -428,5 +438,219 @@ example :
        [⟨.metaStart, ['>', '>'], 7⟩, ⟨.word, ['k'], 9⟩],
        [⟨.word, ['b'], 11⟩, ⟨.escaped, ['\\', '\n'], 12⟩, ⟨.metaStart, ['>', '>'], 14⟩],
        [⟨.metaStart, ['>', '>'], 17⟩, ⟨.word, ['z'], 19⟩]] := by decide
+
+/-! ## parse-stage diagnostics about metadata lines -/
+
+/-- The METADATA TRACE agrees, for EVERY input without front matter, every character table and
+    extension set: the sequence made of the `Metadata` events AND the error/warning events of the
+    kinds `metadata-invalid`, `empty-metadata-key`, `empty-metadata-value` (`Ev.isTrace`) is the same
+    in the event stream of the full `PullParser` and in the one of the metadata-only parser — same
+    events, same diagnostics (severity, labels), same interleaving.  Strengthens
+    `C14_metadata_events_agree`.  Ingredients: no block parser other than `metadata_entry` pushes an
+    event of the trace (third sweep over the block parsers; kinds built by string interpolation and
+    the errors of the number reader included), what `metadata_entry` pushes depends only on the
+    block, and a `>>` block for which `metadata_entry` fails is re-parsed as a step, which adds
+    nothing to the trace. -/
+theorem C14_metadata_trace_agree (cs : CharSpec) (ext : Ext) (input : List Char)
+    (h : parseFrontmatter cs input = none) :
+    (pullEvents (α := α) cs ext input).1.toList.filter Ev.isTrace =
+    (pullMetaEvents (α := α) cs ext input).1.toList.filter Ev.isTrace :=
+  metadata_trace_agree cs ext input h
+
+/-- **Parse-stage metadata diagnostics agree**, for EVERY input without front matter and every
+    environment: the parse-stage diagnostics of the kinds `metadata-invalid`, `empty-metadata-key`
+    and `empty-metadata-value` (`Diag.isParseMeta`) are the same — severity, labels, order —
+    (1) in the error/warning events of `PullParser` and of the metadata-only parser, and
+    (2) in the reports of `parse` and `parse_metadata`.  No hypothesis that the analyses have output:
+    `empty-metadata-key` is an error, after which neither has; the reports then keep the parse-stage
+    diagnostics, and these agree as well. -/
+theorem C14_parse_stage_metadata_diagnostics_agree (env : Env) (input : Str)
+    (h : parseFrontmatter env.cs input = none) :
+    ((pullEvents (α := α) env.cs env.ext input).1.toList.filterMap isDiagEv).filter Diag.isParseMeta =
+      ((pullMetaEvents (α := α) env.cs env.ext input).1.toList.filterMap isDiagEv).filter Diag.isParseMeta ∧
+    (parseRecipe (α := α) env input).diags.toList.filter Diag.isParseMeta =
+      (parseMetadata (α := α) env input).diags.toList.filter Diag.isParseMeta :=
+  ⟨events_parse_meta_agree env.cs env.ext input h, report_parse_meta_agree env input h⟩
+
+/-- the pieces: (1) a block that does not start with `>>` (step, text, section; any
+    `old_style_metadata` flag) adds nothing to the metadata trace — in particular no diagnostic of
+    the three kinds … -/
+theorem C14_other_blocks_add_no_metadata_diagnostic (cs : CharSpec) (ext : Ext) (o : Bool) (b : List Tok)
+    (evs : Array (Ev α)) (p : Option String) (hb : b ≠ [])
+    (hh : b.head?.map (·.kind) ≠ some .metaStart) :
+    (runBlock (α := α) cs ext o b evs p).1.toList.filter Ev.isTrace = evs.toList.filter Ev.isTrace := by
+  rw [runBlock_evs cs ext o b evs p hb]
+  apply parseBlock_other_head_trace
+  cases b with
+  | nil => contradiction
+  | cons t r => simpa using hh
+
+/-- … (2) on a `>>` block both parsers add the same thing to the trace, a function of the block alone
+    (`entryTrace`: the metadata diagnostics `metadata_entry` pushes, then its entry if it parsed one),
+    whatever is already in the queue; when `metadata_entry` fails the full parser parses the block
+    again as a step, which adds nothing to the trace … -/
+theorem C14_meta_block_same_trace (cs : CharSpec) (ext : Ext) (b : List Tok)
+    (evs evs' : Array (Ev α)) (p p' : Option String) (hb : b ≠ [])
+    (hh : b.head?.map (·.kind) = some .metaStart) :
+    (runBlock (α := α) cs ext true b evs p).1.toList.filter Ev.isTrace =
+      evs.toList.filter Ev.isTrace ++ entryTrace (α := α) cs ext b ∧
+    (runMetaBlock (α := α) cs ext b evs' p').1.toList.filter Ev.isTrace =
+      evs'.toList.filter Ev.isTrace ++ entryTrace (α := α) cs ext b := by
+  refine ⟨?_, runMetaBlock_trace cs ext b evs' p' hb⟩
+  have h := runBlock_trace cs ext b evs p hb
+  have hm : isMetaBlock b = true := by
+    cases b with
+    | nil => contradiction
+    | cons t r => simpa [isMetaBlock] using hh
+  rw [hm] at h
+  exact h
+
+/-- … and (3) for ANY event list, whether or not the analysis has output: the parse-stage diagnostics
+    of the report of `parse_events` are exactly the parse-stage diagnostics carried by the
+    error/warning events, in order — the collector adds no parse-stage diagnostic of its own (fourth
+    frame sweep over the collector) and drops none, also when a parse error cuts the run short. -/
+theorem C14_report_parse_stage_diagnostics_are_the_events (env : Env) (input : Str) (l : List (Ev α)) :
+    (parseEvents env input l).diags.toList.filter (fun d => d.stage == .parse) =
+      (l.filterMap isDiagEv).filter (fun d => d.stage == .parse) :=
+  parseEvents_parse_diags env input l
+
+/-- **Diagnostics WITH front matter**, precisely.  For every input with a front-matter block, every
+    extension set and environment:
+    (a) the report of `parse_metadata` is EMPTY (no diagnostic, no panic) and it has output: its only
+        event is the front-matter event;
+    (b) whenever `parse` has output, the metadata diagnostics of its report (`Diag.isMeta`, five
+        kinds) are exactly its `config-invalid-value` / `config-unknown-key` diagnostics
+        (`Diag.isCfg`): none of `std-unsupported-value`, `time-overridden`, `meta-deprecated`;
+    (c) without the MODES extension it has no metadata diagnostic at all, so the analysis
+        diagnostics about metadata agree (both empty);
+    so the two reports differ by exactly what the full analysis says about the cooklang BODY: under
+    MODES the `config-*` diagnostics of `>> [key]: value` lines (see the example below, where they do
+    differ), and the parse-stage diagnostics of the body, among them `metadata-invalid` /
+    `empty-metadata-value` warnings for `>>` lines that are steps there (`metadata_entry` is tried
+    first and its warnings stay when it backtracks).  Diagnostics about the CONTENT of the YAML
+    block come from `serde_yaml` / the std-key checks on the decoded mapping, outside the model. -/
+theorem C14_front_matter_diagnostics (env : Env) (input : Str) (fm : FrontMatter)
+    (h : parseFrontmatter env.cs input = some fm) :
+    ((parseMetadata (α := α) env input).diags = #[] ∧ (parseMetadata (α := α) env input).panic = none ∧
+      (parseMetadata (α := α) env input).output.isSome = true) ∧
+    ∀ r1 : Col α, (parseRecipe (α := α) env input).output = some r1 →
+      r1.diags.toList.filter Diag.isMeta = r1.diags.toList.filter Diag.isCfg ∧
+      r1.diags.toList.filter Diag.isStdMeta = [] ∧
+      (env.ext.has Gen.EXT_MODES = false → r1.diags.toList.filter Diag.isMeta = []) := by
+  refine ⟨⟨(front_meta_report env input fm h).1, (front_meta_report env input fm h).2, ?_⟩, ?_⟩
+  · obtain ⟨r2, e, _⟩ := analysis_front_meta (α := α) env input fm h
+    rw [e]; rfl
+  · intro r1 h1
+    exact ⟨front_full_meta_is_cfg env input fm h r1 h1,
+      congrArg Prod.snd (analysis_front_full_sd env input fm h r1 h1),
+      fun hm => front_full_no_modes env input fm h hm r1 h1⟩
+
+/-- hence, with front matter and without MODES, the analysis diagnostics about metadata agree
+    whenever both analyses have output (with MODES they do not, see the example) -/
+theorem C14_front_matter_no_modes_diagnostics_agree (env : Env) (input : Str) (fm : FrontMatter)
+    (h : parseFrontmatter env.cs input = some fm) (hm : env.ext.has Gen.EXT_MODES = false)
+    (r1 r2 : Col α) (h1 : (parseRecipe (α := α) env input).output = some r1)
+    (h2 : (parseMetadata (α := α) env input).output = some r2) :
+    r1.diags.toList.filter Diag.isMeta = r2.diags.toList.filter Diag.isMeta := by
+  rw [front_full_no_modes env input fm h hm r1 h1, front_meta_output_diags env input fm h r2 h2]
+  rfl
+
+/-- Summary for EVERY input, with or without front matter: the metadata-only report never says
+    anything about metadata that the full report does not say.  Its parse-stage metadata diagnostics
+    are a sublist of those of the full report (equal without front matter, empty with), and whenever
+    both analyses have output so are its analysis diagnostics about metadata. -/
+theorem C14_metadata_only_diagnostics_included (env : Env) (input : Str) :
+    List.Sublist ((parseMetadata (α := α) env input).diags.toList.filter Diag.isParseMeta)
+      ((parseRecipe (α := α) env input).diags.toList.filter Diag.isParseMeta) ∧
+    ∀ r1 r2 : Col α, (parseRecipe (α := α) env input).output = some r1 →
+      (parseMetadata (α := α) env input).output = some r2 →
+      List.Sublist (r2.diags.toList.filter Diag.isMeta) (r1.diags.toList.filter Diag.isMeta) := by
+  cases h : parseFrontmatter env.cs input with
+  | none =>
+    refine ⟨by rw [report_parse_meta_agree env input h]; exact List.Sublist.refl _, ?_⟩
+    intro r1 r2 h1 h2
+    rw [C14_metadata_diagnostics_agree_partial env input h r1 r2 h1 h2]
+    exact List.Sublist.refl _
+  | some fm =>
+    refine ⟨by rw [(front_meta_report env input fm h).1]; exact List.nil_sublist _, ?_⟩
+    intro r1 r2 h1 h2
+    rw [front_meta_output_diags env input fm h r2 h2]
+    exact List.nil_sublist _
+
+/-! the filters are not trivial -/
+example : Diag.isParseMeta ⟨.warning, .parse, "metadata-invalid", [⟨0, 4⟩]⟩ = true ∧
+    Diag.isParseMeta ⟨.error, .parse, "empty-metadata-key", []⟩ = true ∧
+    Diag.isParseMeta ⟨.warning, .parse, "empty-metadata-value", []⟩ = true ∧
+    Diag.isParseMeta ⟨.warning, .parse, "section-invalid", []⟩ = false ∧
+    Diag.isParseMeta ⟨.warning, .analysis, "meta-deprecated", []⟩ = false := by decide
+example : Diag.isCfg ⟨.error, .analysis, "config-invalid-value", []⟩ = true ∧
+    Diag.isCfg ⟨.warning, .analysis, "time-overridden", []⟩ = false := by decide
+
+/-! WHOLE-INPUT examples with a non-empty cooklang text.  `lexFrom` is defined by well-founded
+    recursion and does not reduce; `lexFuel` is its structurally recursive twin
+    (`lexFrom_eq_fuel`), which does.  The closed terms are evaluated by the kernel (`decide +kernel`):
+    the elaborator's `rfl`/`decide` needs minutes and gigabytes on them. -/
+
+/-- front matter, then a `[mode]` entry with a bad value and a step; MODES on: both analyses have
+    output (the hypotheses of `C14_agree` / `C14_front_matter_diagnostics` hold on an input with a
+    cooklang body), the full report is exactly one `config-invalid-value`, the metadata-only report
+    is empty — the `config-*` diagnostics DO differ -/
+def C14_exInput : List Char := "---\na: 1\n---\n>> [mode]: x\nx\n".toList
+
+example : parseFrontmatter C14_exCs C14_exInput = some ⟨"a: 1\n".toList, 4, ">> [mode]: x\nx\n".toList, 13⟩ ∧
+    ((parseRecipe (α := Rat) C14_exEnv C14_exInput).output.isSome = true ∧
+     (parseRecipe (α := Rat) C14_exEnv C14_exInput).diags.toList.map (·.kind) = ["config-invalid-value"]) ∧
+    (parseMetadata (α := Rat) C14_exEnv C14_exInput).output.isSome = true ∧
+    (parseMetadata (α := Rat) C14_exEnv C14_exInput).diags = #[] := by
+  have h : parseFrontmatter C14_exCs C14_exInput =
+      some ⟨"a: 1\n".toList, 4, ">> [mode]: x\nx\n".toList, 13⟩ := by rfl
+  have hl : lexFrom C14_exCs 13 ">> [mode]: x\nx\n".toList = lexFuel C14_exCs 15 13 ">> [mode]: x\nx\n".toList :=
+    lexFrom_eq_fuel _ _ _ _ (by decide)
+  refine ⟨h, ?_, ?_⟩
+  · unfold parseRecipe pullEvents
+    simp only [C14_exEnv, h, hl]
+    decide +kernel
+  · have hd := C14_front_matter_diagnostics (α := Rat) C14_exEnv C14_exInput _ h
+    exact ⟨hd.1.2.2, hd.1.1⟩
+
+/-- no front matter: a `>>` line without colon (`metadata-invalid`, then parsed as a step by the full
+    parser), an entry with an empty value (`empty-metadata-value`) and a step.  Both reports carry
+    these two parse-stage metadata diagnostics, in this order (and `meta-deprecated`): the two sides
+    of `C14_parse_stage_metadata_diagnostics_agree` are not empty -/
+def C14_exInput2 : List Char := ">> a\n>> k:\nx".toList
+def C14_exEnv0 : Env := ⟨C14_exCs, ⟨0⟩, fun _ => none, fun _ _ => .ok, fun c => [c], 0⟩
+
+example : parseFrontmatter C14_exCs C14_exInput2 = none ∧
+    ((parseRecipe (α := Rat) C14_exEnv0 C14_exInput2).diags.toList.filter Diag.isParseMeta).map (·.kind) =
+      ["metadata-invalid", "empty-metadata-value"] ∧
+    ((parseMetadata (α := Rat) C14_exEnv0 C14_exInput2).diags.toList.filter Diag.isParseMeta).map (·.kind) =
+      ["metadata-invalid", "empty-metadata-value"] ∧
+    (parseRecipe (α := Rat) C14_exEnv0 C14_exInput2).diags.size = 3 ∧
+    (parseMetadata (α := Rat) C14_exEnv0 C14_exInput2).diags.size = 3 := by
+  have h : parseFrontmatter C14_exCs C14_exInput2 = none := by decide
+  have hl : lex C14_exCs C14_exInput2 = lexFuel C14_exCs 12 0 C14_exInput2 := lexFrom_eq_fuel _ _ _ _ (by decide)
+  refine ⟨h, ?_, ?_, ?_, ?_⟩
+  · unfold parseRecipe pullEvents
+    simp only [C14_exEnv0, h, hl]
+    decide +kernel
+  · unfold parseMetadata pullMetaEvents
+    simp only [C14_exEnv0, h, hl]
+    decide +kernel
+  · unfold parseRecipe pullEvents
+    simp only [C14_exEnv0, h, hl]
+    decide +kernel
+  · unfold parseMetadata pullMetaEvents
+    simp only [C14_exEnv0, h, hl]
+    decide +kernel
+
+/-- with front matter the full parser still warns about `>>` lines of the body: the block `>> s:`
+    (empty value) run with `old_style_metadata = false` pushes `empty-metadata-value` and then the
+    events of a step — no `Metadata` event; the metadata-only parser never sees that line -/
+example :
+    let toks : List Tok := [⟨.metaStart, ['>', '>'], 13⟩, ⟨.ws, [' '], 15⟩, ⟨.word, ['s'], 16⟩, ⟨.colon, [':'], 17⟩]
+    ((runBlock (α := Rat) C14_exCs ⟨0⟩ false toks #[] none).1.toList.filterMap isDiagEv).map (·.kind) =
+      ["empty-metadata-value"] ∧
+    (runBlock (α := Rat) C14_exCs ⟨0⟩ false toks #[] none).1.toList.map Ev.isKey = [false, false, false, false] := by
+  constructor <;> rfl
 
 end Cook
